@@ -490,7 +490,7 @@ pub async fn run_concurrent_case(backend: &str, seed: u64, rep: &mut Report) -> 
           let (m, s) = note(&format!("late-{}", rng.below(100000)), "x"); let _ = a.create_secret(m, s, AccessOptions { folder: Some(shared), ..Default::default() }).await;
           if rng.chance(3, 4) { let _ = a.create_folder(NewFolderOptions::new(format!("other-{}", rng.below(100000)))).await; } }
         { let mut a = w.devices[1].lock().await; let r = a.delete_folder(&shared).await; script.push(format!("pre-history folder-deleted-vs-edited: d0 secret into shared folder (+ new folder); d1 delete shared folder -> {}", r.is_ok())); }
-        if rng.chance(2, 3) { forced = vec![1, 0, 0, 0, 0, 0, 0, 0, 0]; }
+        if rng.chance(2, 3) { forced = vec![1, 1, 0, 0, 0, 0, 0, 0, 0, 0, 0, 0]; }
     }
     for k in 0..n_dev {
         if pre == 5 || pre == 4 || pre == 0 || (pre == 1 && k > 0) || (pre == 3 && k == 0) { continue; }
@@ -605,6 +605,8 @@ pub async fn run_concurrent_case(backend: &str, seed: u64, rep: &mut Report) -> 
         let r = h.await.unwrap_or_else(|e| format!("task-panic:{e}"));
         script.push(format!("result d{k} -> {r}"));
         rep.count(&format!("result:{}", r.split(':').next().unwrap()));
+        if r.starts_with("error:") { let shape: String = r.chars().take(70).map(|c| if c.is_ascii_hexdigit() && !c.is_ascii_lowercase() || c.is_ascii_digit() { '#' } else { c }).collect(); rep.count(&format!("error-shape:{}", shape.split("'").next().unwrap_or(""))); }
+        if r.starts_with("error:") && std::env::var("SDEBUG").is_ok() { eprintln!("CASE {seed} {backend}: {}", script.join(" ; ")); }
         if r.starts_with("task-panic") { rep.spec_fail("c09-sync-call-panicked", json!({"case_seed": seed, "backend": backend, "script": script}), &r); }
     }
     rep.count_n("requests-scheduled", steps as u64);
@@ -660,7 +662,7 @@ pub fn run_sched(cli: &Cli) {
         }
     }
     rep.rule = format!("{n} cases per backend: 2-3 real devices whose sync calls run concurrently against one real server storage; the harness releases one request \
-        (status / sync / scan / diff / patch) at a time in a generated order; pre-histories: no edits, one device edited (fast-forward), all devices edited (soft conflict, distinct events), server ahead, stale ancestor (an old offline edit of a third device is merged before another device's ancestor), folder deleted on one device while another adds events to it and to the account log (two thirds of these with the order status(d1) then d0's whole sync then d1's stale sync request); bursty schedules; \
+        (status / sync / scan / diff / patch) at a time in a generated order; pre-histories: no edits, one device edited (fast-forward), all devices edited (soft conflict, distinct events), server ahead, stale ancestor (an old offline edit of a third device is merged before another device's ancestor), folder deleted on one device while another adds events to it and to the account log (two thirds of these with the order exists(d1), status(d1), d0's whole sync, then d1's now stale sync request); bursty schedules; \
         then two sequential rounds; non-trivial = some device had edits");
     rep.write(&cli.out);
 }
